@@ -25,6 +25,7 @@ type c12Layout struct {
 	Shape     []int  `json:"shape"`           // fragments per intended segment
 	Tracks    int    `json:"tracks"`          // 1 or 2
 	Tfra2     int    `json:"tfra2,omitempty"` // mfra only: second tfra (track 2) with one entry fewer (1) / the same entries (2) / one more (3)
+	Gap       bool   `json:"gap,omitempty"`   // sidx/sidx2 only: a free box between the top-level index and the first segment (first_offset != 0)
 	Mech      string `json:"mech"`            // "styp", "sidx", "sidx2", "mfra", "none"
 	Emsg      int    `json:"emsg"`            // 0 none, 1 before the first moof of every segment, 2 before every moof
 	SegSidx   int    `json:"seg_sidx"`        // number of sidx boxes inside each styp segment (mech styp only)
@@ -153,20 +154,25 @@ func c12Build(l *c12Layout) *c12Built {
 			}
 		}
 	}
-	var top []byte
+	var top, gap []byte
+	if l.Gap && (l.Mech == "sidx" || l.Mech == "sidx2") {
+		// a free box between the index and the first segment: first_offset of the index is non-zero
+		gap = tableref.Box("free", []byte{1, 2, 3, 4})
+	}
 	segLens := make([]int, len(segs))
 	for si := range segs {
 		segLens[si] = len(segs[si])
 	}
 	switch l.Mech {
 	case "sidx":
-		top = c12Sidx(0, b.EPT, segLens, b.SegDur)
+		top = c12Sidx(uint64(len(gap)), b.EPT, segLens, b.SegDur)
 	case "sidx2":
 		// two sequential top-level indexes: the first covers segment 0, the second the rest
-		s2 := c12Sidx(uint64(segLens[0]), b.EPT+b.SegDur[0], segLens[1:], b.SegDur[1:])
-		s1 := c12Sidx(uint64(len(s2)), b.EPT, segLens[:1], b.SegDur[:1])
+		s2 := c12Sidx(uint64(segLens[0]+len(gap)), b.EPT+b.SegDur[0], segLens[1:], b.SegDur[1:])
+		s1 := c12Sidx(uint64(len(s2)+len(gap)), b.EPT, segLens[:1], b.SegDur[:1])
 		top = append(s1, s2...)
 	}
+	top = append(top, gap...)
 	file := append(append([]byte{}, ff.Init...), top...)
 	for si := range segs {
 		start := len(file)
@@ -681,6 +687,9 @@ func c12Layouts(thorough bool) []*c12Layout {
 									continue
 								}
 								out = append(out, &c12Layout{Shape: sh, Tracks: tracks, Mech: mech, Emsg: emsg, SegSidx: ss, Base: uint64(tm[0]), Cto: int32(tm[1]), LeadIn: lead})
+								if (mech == "sidx" || mech == "sidx2") && (thorough || lead == 0) {
+									out = append(out, &c12Layout{Shape: sh, Tracks: tracks, Mech: mech, Emsg: emsg, SegSidx: ss, Base: uint64(tm[0]), Cto: int32(tm[1]), LeadIn: lead, Gap: true})
+								}
 								if thorough || (emsg == 0 && ss == 0 && lead == 0) {
 									for form := 1; form <= 4; form++ {
 										out = append(out, &c12Layout{Shape: sh, Tracks: tracks, Mech: mech, Emsg: emsg, SegSidx: ss, Base: uint64(tm[0]), Cto: int32(tm[1]), LeadIn: lead, Form: form})
@@ -703,7 +712,7 @@ func runC12(c *vf.Ctx) {
 	} else {
 		c.SetBudget(3 * 60 * 1e9)
 	}
-	c.Rule = "files are generated from an intended partition (ground truth by construction) with a raw writer: shapes of 1-3 segments x 1-2 fragments, 1-2 tracks, delimiter mechanism {styp, one top-level sidx, two sequential top-level sidx, mfra/tfra, none}, emsg {none, first fragment of each segment, every fragment}, 0/1/2 sidx inside each styp segment, first decode time/composition offset {0/0, 7/0, 7/2}, 0 or 4 unused bytes at the start of each mdat, reference-track runs in 5 forms (explicit durations / tfhd default / trex default, one or two truns per traf); decoded with all four flag combinations (ISM, start-on-moof) by both decoders; partition, order, byte-identical segment-mode re-encode, then UpdateSidx(add, nonZeroEPT in {false,true}) + Encode through the API and through the add-sidx example (overlay driver), with the written index checked against the actual box positions by an independent walker. A case = (layout, flags, decoder)."
+	c.Rule = "files are generated from an intended partition (ground truth by construction) with a raw writer: shapes of 1-3 segments x 1-2 fragments, 1-2 tracks, delimiter mechanism {styp, one top-level sidx, two sequential top-level sidx, mfra/tfra, none}, for the top-level indexes with and without a free box between index and first segment (first_offset != 0), emsg {none, first fragment of each segment, every fragment}, 0/1/2 sidx inside each styp segment, first decode time/composition offset {0/0, 7/0, 7/2}, 0 or 4 unused bytes at the start of each mdat, reference-track runs in 5 forms (explicit durations / tfhd default / trex default, one or two truns per traf); decoded with all four flag combinations (ISM, start-on-moof) by both decoders; partition, order, byte-identical segment-mode re-encode, then UpdateSidx(add, nonZeroEPT in {false,true}) + Encode through the API and through the add-sidx example (overlay driver), with the written index checked against the actual box positions by an independent walker. A case = (layout, flags, decoder)."
 	c.Bound = "<= 3 segments x <= 2 fragments x <= 2 tracks; 1-2 samples per fragment"
 	layouts := c12Layouts(thorough)
 	c.Set("layouts", len(layouts))
